@@ -125,6 +125,12 @@ def run(chk):
             lines.append(r.run_line)
             impl.append(r.text)
             cases.append(case)
+        if dropped is None:
+            # the same components on the edges the GROUP registry holds (what dr.run(<group>) / the default graph sort on)
+            rg = W.evaluate(world, seeds, ss, world.group_graph(list(graph)), mode="run")
+            oracle(chk, world, rg, {"spec": W.strip(spec), "seeds": seeds, "targets": targets, "order": rg.order_ids, "store_skips": ss,
+                                    "dropped": None, "mode": "run", "group_graph": True})
+            chk.count("group-graph")
         if idx % 5 in (2, 3):
             # sub-graph after sub-graph on ONE broker (serially, and through run_all on a deferring pool): still at most
             # once per component, nothing outside the graph, the declared edges untouched
